@@ -1,6 +1,6 @@
 #!/bin/bash
 # tools/run_all.sh [props...]  -- run the quick check of every (given) claimed property, one after the other; summary at the end
-cd /verif
+cd "$(dirname "$0")/.."
 P=${@:-$(python3 -c "import json;print(' '.join(c['property_id'] for c in json.load(open('MANIFEST.json'))['checks']))")}
 mkdir -p build/logs
 for p in $P; do
